@@ -1,4 +1,4 @@
-import MontePyVerif.Lemmas.GeometryUpdate
+import MontePyVerif.Lemmas.GeometrySwitch
 /-! # C02 — a cell's geometry keeps its Boolean meaning through read, edit and write
 
 Spec: `Spec/Geometry.lean` (`denote`: one-pass lexer + stack evaluator, MCNP's rules).
@@ -104,8 +104,8 @@ theorem ready_holds (h : HS) (hr : ready h = true) : Holds h := by
     cases n with
     | none => simp [ready, gen] at hr
     | some g =>
-      simp only [ready, gen, Bool.and_eq_true, Bool.not_eq_true'] at hr
-      obtain ⟨⟨⟨⟨⟨⟨⟨hl, hrr⟩, ho⟩, hckl⟩, hckr⟩, hLc⟩, hop⟩, hep⟩ := hr
+      simp only [ready, gen, Bool.and_eq_true, Bool.not_eq_true', cond_true] at hr
+      obtain ⟨⟨⟨⟨⟨⟨⟨⟨hl, hrr⟩, ho⟩, hckl⟩, hckr⟩, hLc⟩, hopr⟩, hop⟩, hep⟩ := hr
       have hL := ihl (by simpa [ready] using hl)
       have hR := ihr (by simpa [ready] using hrr)
       obtain ⟨gL, hLp⟩ := link_good hL.1 hckl
@@ -113,7 +113,9 @@ theorem ready_holds (h : HS) (hr : ready h = true) : Holds h := by
       cases o with
       | inter =>
         simp only [Bool.and_eq_true, Bool.not_eq_true', Bool.or_eq_true] at hop
-        obtain ⟨⟨⟨⟨hsep, hoc⟩, hsepar⟩, hul⟩, hur⟩ := hop
+        simp only [oprOKp, interLike, Bool.and_eq_true, Bool.not_eq_true'] at hopr
+        obtain ⟨_, ⟨hsep, hoc⟩, _⟩ := hopr
+        obtain ⟨⟨hsepar, hul⟩, hur⟩ := hop
         have semL := (link_sem (ws := g.lchain) (b := !isUnion l) hL.2.1 (fun hb => hL.2.2 (by simpa using hb))).2
           (by rcases hul with h | h
               · left; simpa using h
@@ -128,16 +130,18 @@ theorem ready_holds (h : HS) (hr : ready h = true) : Holds h := by
         rw [fmt_bin ho]
         simp only [toks]
         refine good_inter gL hLc gR hsep hoc ?_ (isSep_of_false _ hep)
-        rcases hsepar with (h | h) | h
+        rcases hsepar with ((h | h) | h) | h
         · left; intro e; simp [e] at h
         · right; left
           obtain ⟨R', ts', h1, h2, h3⟩ := hLp h
           exact ⟨R', ts', h1, h2, h3⟩
-        · right; right
+        · right; right; left
           obtain ⟨R', ts', h1, h2, h3⟩ := hRp h
           exact ⟨R', ts', h1, h2, h3⟩
+        · right; right; right; exact h
       | union =>
-        obtain ⟨a, b, hab, ha, hac, hb, hbc⟩ := unionOpr_shape hop
+        simp only [oprOKp, Bool.and_eq_true] at hopr
+        obtain ⟨a, b, hab, ha, hac, hb, hbc⟩ := unionOpr_shape hopr.2
         have semL := (link_sem (ws := g.lchain) (b := false) hL.2.1 (by simp)).1
         have semR := (link_sem (ws := g.rchain) (b := false) hR.2.1 (by simp)).1
         have hsem : L0 (toks (.bin .union l r (some g))) (fun ρ => (HS.bin .union l r (some g)).eval ρ) := by
@@ -340,16 +344,13 @@ theorem C02_ready_wf (h : HS) (hr : ready h = true) : wf h = true := by
     cases n with
     | none => simp [ready, gen] at hr
     | some g =>
-      simp only [ready, gen, Bool.and_eq_true, Bool.not_eq_true'] at hr
-      obtain ⟨⟨⟨⟨⟨⟨⟨hl, hrr⟩, ho⟩, hckl⟩, hckr⟩, _⟩, hop⟩, hep⟩ := hr
+      simp only [ready, gen, Bool.and_eq_true, Bool.not_eq_true', cond_true] at hr
+      obtain ⟨⟨⟨⟨⟨⟨⟨⟨hl, hrr⟩, ho⟩, hckl⟩, hckr⟩, _⟩, hopr⟩, _⟩, hep⟩ := hr
       simp only [wf, Bool.and_eq_true]
       refine ⟨⟨ihl hl, ihr hrr⟩, ⟨⟨⟨⟨ho, chainPads_of_chainOK hckl⟩, chainPads_of_chainOK hckr⟩, ?_⟩, hep⟩⟩
-      cases o with
-      | union => exact hop
-      | inter =>
-        simp only [Bool.and_eq_true, Bool.not_eq_true'] at hop
-        simp only [oprOK, Bool.and_eq_true, Bool.not_eq_true']
-        exact hop.1.1.1
+      refine ⟨hopr.1, ?_⟩
+      have h2 := hopr.2
+      cases o <;> simp_all [oprPre, oprOKp]
 
 /-! the operators keep trees well-formed -/
 
@@ -453,6 +454,129 @@ theorem C02_cell_update (ctr : Nat) (c : CG) (hw : wf c.hs = true) (hp : chainPa
       ⟨[], (updateValues ctr c.hs).1.nodeId.getD 0, (updateValues ctr c.hs).1⟩ hr rfl
     rw [hu]
     exact ⟨e, he, fun ρ => by rw [hv ρ]; exact hm ρ⟩
+
+/-! ## the `operator` setter (`hs.operator = …`; `__switch_operator` with a new symbol) -/
+
+/-- **C02_ops_setOperator.** After `hs.operator = o'` the region is the new operator applied to the unchanged
+    operands. -/
+theorem C02_ops_setOperator (o o' : BOp) (l r : HS) (n : Option GN) (ρ : Env) :
+    ((HS.bin o l r n).setOperator o').eval ρ =
+      (match o' with
+        | .inter => l.eval ρ && r.eval ρ
+        | .union => l.eval ρ || r.eval ρ) := by
+  cases o' <;> rfl
+
+/-- the setter keeps a tree well-formed: the syntax node now carries the text of the *other* operator, which is
+    what `wf` allows and `_update_node` repairs -/
+theorem wf_setOperator (o' : BOp) {h : HS} (hw : wf h = true) : wf (h.setOperator o') = true := by
+  cases h with
+  | unit _ _ _ _ => exact hw
+  | compl _ _ => exact hw
+  | bin o l r n => simpa [HS.setOperator, wf] using hw
+
+/-- **C02_setOperator_write.** `hs.operator = o'` on any well-formed binary tree, then a write: the text denotes the
+    new operator applied to the unchanged operands. This is where `__switch_operator` runs with a *new* symbol
+    (`switch_colon_spec`: the ":" goes on a blank MCNP reads, or in front; `updateNodeBin_inter`: an old ":" is blanked
+    out and a separator stays). -/
+theorem C02_setOperator_write (c : Nat) (o o' : BOp) (l r : HS) (n : Option GN)
+    (hw : wf (.bin o l r n) = true) :
+    ∃ e, denote (updateValues c ((HS.bin o l r n).setOperator o')).1.fmt = some e ∧
+      ∀ ρ, e.eval ρ = (match o' with
+        | .inter => l.eval ρ && r.eval ρ
+        | .union => l.eval ρ || r.eval ρ) := by
+  obtain ⟨e, he, hv⟩ := C02_write_meaning_wf c _ (wf_setOperator o' hw)
+  exact ⟨e, he, fun ρ => by rw [hv ρ, C02_ops_setOperator]⟩
+
+/-- an edit of a geometry: a Python operator, the `operator` setter on the root, or a write -/
+inductive Edit where
+  | op (o : Op)
+  | setOperator (o' : BOp)
+  | write
+
+def Edit.ok : Edit → Prop
+  | .op o => ∀ x, o.operand = some x → wf x = true
+  | _ => True
+
+def runEdit (st : HS × Nat) : Edit → HS × Nat
+  | .op o => (applyOp st.1 o, st.2)
+  | .setOperator o' => (st.1.setOperator o', st.2)
+  | .write => updateValues st.2 st.1
+
+/-- **C02_history_edits.** Histories that also use the `operator` setter: after any sequence of operator edits, setter
+    edits and writes from a well-formed tree, the tree is well-formed and the next write's text denotes exactly the
+    region of the tree the API exposes (which `C02_history`, `C02_ops_setOperator` and `C02_update_meaning` give
+    step by step). -/
+theorem C02_history_edits (h0 : HS) (c0 : Nat) (es : List Edit) (hw : wf h0 = true) (hs : ∀ e ∈ es, e.ok) :
+    wf (es.foldl runEdit (h0, c0)).1 = true ∧
+    ∃ e, denote (updateValues (es.foldl runEdit (h0, c0)).2 (es.foldl runEdit (h0, c0)).1).1.fmt = some e ∧
+      ∀ ρ, e.eval ρ = (es.foldl runEdit (h0, c0)).1.eval ρ := by
+  have key : wf (es.foldl runEdit (h0, c0)).1 = true := by
+    induction es generalizing h0 c0 with
+    | nil => exact hw
+    | cons s ss ih =>
+      have hs' : ∀ t ∈ ss, t.ok := fun t ht => hs t (List.mem_cons_of_mem _ ht)
+      have hs0 : s.ok := hs s (List.mem_cons_self ..)
+      cases s with
+      | op o => exact ih (applyOp h0 o) c0 (wf_applyOp hw hs0) hs'
+      | setOperator o' => exact ih (h0.setOperator o') c0 (wf_setOperator o' hw) hs'
+      | write =>
+        exact ih (updateValues c0 h0).1 (updateValues c0 h0).2 (C02_ready_wf _ (C02_update_ready c0 h0 hw)) hs'
+  exact ⟨key, C02_write_meaning_wf _ _ key⟩
+
+/-- `Cell._update_values` keeps the cell's geometry entry well-formed and its region unchanged -/
+theorem cell_update_inv (ctr : Nat) (c : CG) (hw : wf c.hs = true) (hp : chainPads c.chain = true) :
+    wf (c.update ctr).1.hs = true ∧ chainPads (c.update ctr).1.chain = true ∧
+      ∀ ρ, (c.update ctr).1.hs.eval ρ = c.hs.eval ρ := by
+  have hr := C02_update_ready ctr c.hs hw
+  have hm := C02_update_meaning ctr c.hs hw
+  by_cases ht : c.target = (updateValues ctr c.hs).1.nodeId.getD 0
+  · obtain ⟨k1, _⟩ := closeParens_spec true c.chain (updateValues ctr c.hs).1 hr hp
+    have hu : (c.update ctr).1 =
+        ⟨(closeParens c.chain (updateValues ctr c.hs).1).1, c.target, (closeParens c.chain (updateValues ctr c.hs).1).2⟩ := by
+      simp [CG.update, ht]
+    rw [hu]
+    exact ⟨C02_ready_wf _ k1.g, (chainExt_pads k1.ext hp).1, fun ρ => (k1.same.ev ρ).trans (hm ρ)⟩
+  · have hu : (c.update ctr).1 =
+        ⟨[], (updateValues ctr c.hs).1.nodeId.getD 0, (updateValues ctr c.hs).1⟩ := by
+      simp [CG.update, ht]
+    rw [hu]
+    exact ⟨C02_ready_wf _ hr, rfl, hm⟩
+
+/-- a step on the cell: `cell.geometry = <edit>(cell.geometry)` or a write of the cell -/
+def runCellStep (st : CG × Nat) : Step → CG × Nat
+  | .edit op => (st.1.set (applyOp st.1.hs op), st.2)
+  | .write => st.1.update st.2
+
+/-- **C02_cell_history.** `C02_history_wf` at the level of the cell (`Cell.geometry` setter, `Cell._update_values` with
+    the parentheses that were read around the whole geometry): after any interleaving of edits and writes the
+    geometry part of the next written cell denotes the fold of the Boolean operations over the operands' regions. -/
+theorem C02_cell_history (c0 : CG) (n0 : Nat) (steps : List Step) (hw : wf c0.hs = true)
+    (hp : chainPads c0.chain = true) (hs : ∀ s ∈ steps, s.ok) :
+    wf (steps.foldl runCellStep (c0, n0)).1.hs = true ∧
+    (∀ ρ, (steps.foldl runCellStep (c0, n0)).1.hs.eval ρ = steps.foldl (stepSem ρ) (c0.hs.eval ρ)) ∧
+    ∃ e, denote ((steps.foldl runCellStep (c0, n0)).1.update (steps.foldl runCellStep (c0, n0)).2).1.fmt = some e ∧
+      ∀ ρ, e.eval ρ = steps.foldl (stepSem ρ) (c0.hs.eval ρ) := by
+  have key : wf (steps.foldl runCellStep (c0, n0)).1.hs = true ∧
+      chainPads (steps.foldl runCellStep (c0, n0)).1.chain = true ∧
+      (∀ ρ, (steps.foldl runCellStep (c0, n0)).1.hs.eval ρ = steps.foldl (stepSem ρ) (c0.hs.eval ρ)) := by
+    induction steps generalizing c0 n0 with
+    | nil => exact ⟨hw, hp, fun _ => rfl⟩
+    | cons s ss ih =>
+      have hs' : ∀ t ∈ ss, t.ok := fun t ht => hs t (List.mem_cons_of_mem _ ht)
+      have hs0 : s.ok := hs s (List.mem_cons_self ..)
+      cases s with
+      | edit op =>
+        obtain ⟨i1, i2, i3⟩ := ih (c0.set (applyOp c0.hs op)) n0 (wf_applyOp hw hs0) hp hs'
+        refine ⟨i1, i2, fun ρ => ?_⟩
+        rw [List.foldl_cons, List.foldl_cons, runCellStep, stepSem, ← applyOp_eval]; exact i3 ρ
+      | write =>
+        obtain ⟨u1, u2, u3⟩ := cell_update_inv n0 c0 hw hp
+        obtain ⟨i1, i2, i3⟩ := ih (c0.update n0).1 (c0.update n0).2 u1 u2 hs'
+        refine ⟨i1, i2, fun ρ => ?_⟩
+        rw [List.foldl_cons, List.foldl_cons, runCellStep, stepSem, ← u3 ρ]; exact i3 ρ
+  obtain ⟨k1, k2, k3⟩ := key
+  obtain ⟨e, he, hv⟩ := C02_cell_update (steps.foldl runCellStep (c0, n0)).2 _ k1 k2
+  exact ⟨k1, k3, e, he, fun ρ => by rw [hv ρ, k3 ρ]⟩
 
 /-! ## the constants of the source (generated: `Gen/Geometry.lean`, `Gen/Constants.lean`) -/
 
